@@ -157,7 +157,7 @@ impl<T> CtOption<T> {
         ensures self.o is None ==> r.o is None, self.o is Some ==> r.o is Some && f.ensures((self.o->Some_0,), r.o->Some_0) { unimplemented!() }
 }
 impl<T> From<CtOption<T>> for Option<T> { #[verifier::external_body] fn from(c: CtOption<T>) -> (r: Option<T>) ensures r == c.o { unimplemented!() } }
-pub struct AffinePoint { pub pt: Ghost<Seq<u8>> }
+pub struct AffinePoint<C = Secp256k1> { pub pt: Ghost<Seq<u8>>, pub _c: core::marker::PhantomData<C> }
 impl AffinePoint {
     #[verifier::external_body] pub fn decompress(x: &FieldBytes, y_is_odd: Choice) -> (r: CtOption<AffinePoint>)
         ensures match r.o { Some(p) => decompress_spec(x@, y_is_odd.v) == Some(p.pt@), None => decompress_spec(x@, y_is_odd.v) is None } { unimplemented!() }
@@ -202,3 +202,23 @@ pub mod bs58 {
     impl DecodeBuilder { #[verifier::external_body] pub fn into_vec(self) -> (r: Result<Vec<u8>, Bs58DecodeError>)
         ensures match r { Ok(v) => b58_dec(self.s@) == Some(v@), Err(_) => b58_dec(self.s@) is None } { unimplemented!() } }
 }
+// ---- projective arithmetic used by ECIES / BIP32 ----
+pub struct ProjectivePoint { pub pt: Ghost<Option<Seq<u8>>> }   // None: the identity
+impl K256PublicKey {
+    #[verifier::external_body] pub fn to_projective(&self) -> (r: ProjectivePoint) ensures r.pt@ == Some(self.pt@) { unimplemented!() }
+    // from_affine refuses only the identity
+    #[verifier::external_body] pub fn from_affine(a: AffineMaybe) -> (r: Result<K256PublicKey, CurveError>)
+        ensures match r { Ok(k) => a.pt@ == Some(k.pt@), Err(_) => a.pt@ is None } { unimplemented!() }
+}
+pub struct AffineMaybe { pub pt: Ghost<Option<Seq<u8>>> }
+impl ProjectivePoint {
+    #[verifier::external_body] pub fn to_affine(&self) -> (r: AffineMaybe) ensures r.pt@ == self.pt@ { unimplemented!() }
+}
+// point * non-zero scalar: never the identity for a non-identity point (prime-order group)
+impl vstd::std_specs::ops::MulSpecImpl<Scalar> for ProjectivePoint {
+    open spec fn obeys_mul_spec() -> bool { true }
+    open spec fn mul_req(self, rhs: Scalar) -> bool { true }
+    open spec fn mul_spec(self, rhs: Scalar) -> ProjectivePoint { ProjectivePoint { pt: Ghost(match self.pt@ { Some(p) => Some(pt_mul(p, rhs.v@)), None => None }) } }
+}
+impl core::ops::Mul<Scalar> for ProjectivePoint { type Output = ProjectivePoint;
+    #[verifier::external_body] fn mul(self, rhs: Scalar) -> (r: ProjectivePoint) { unimplemented!() } }
